@@ -22,6 +22,7 @@ def run(rep):
     rep.guard(c14.m4b, rep, w)
     rep.guard(n5, rep, w)
     rep.guard(n6, rep, w)
+    rep.guard(n8, rep, w, 'C15')
     import c09
     rep.guard(c09.f5, rep, w)     # a fiber killed by a failed run is reported as finished by later snippets
     import c05
@@ -305,3 +306,42 @@ def n6(rep, w):
     ok = all(direct or (via and any(sb in dom.get(bi, ()) for sb in set_active)) for (bi, direct, via) in clears)
     r.check(ok, 'reset(): active_module = module("main") before its attributes are replaced', 'reset() replaces the attributes of the active module without first making "main" the active '
             'module: after a run that died inside an imported module, main keeps all its globals and the imported module loses its own', f.loc())
+
+
+def n8(rep, w, prop='C15'):
+    """a counter of "things in progress" that one instruction raises and another lowers (module bodies being run, nested regions
+    entered) is a pairing across instructions: between the two, any error can take control away to a handler - or out of the run -
+    and the second instruction never executes. Such a counter has to be put right where exceptions are delivered (unwind_stack) or
+    it only ever grows: after enough caught failures every later import is refused as "nested too deeply"."""
+    r = rep.rule('N8', 'a counter raised by one instruction and lowered by another is also restored when an exception unwinds past them', floor=0)
+    c = w.yarel
+    reach = w.reach_from({'yarel::vm::Vm::run'})
+    ups, downs = {}, {}
+    for p_ in reach:
+        f = w.fns[p_]
+        if f.crate is not c or not f.file.endswith(('vm.rs', 'object.rs', 'core.rs')):
+            continue
+        for bi in f.normal_blocks():
+            for s_ in f.blocks[bi]['s']:
+                rr = s_.get('r', {})
+                if rr.get('rv') != 'bin' or not (rr['op'].startswith('Add') or rr['op'].startswith('Sub')) or (op_const(rr['b']) or {}).get('v') != 1:
+                    continue
+                pl = op_place(rr['a'])
+                ps = [e for e in (pl or {}).get('p', []) if isinstance(e, dict) and 'n' in e and 'f' in e]
+                if not ps:
+                    continue
+                owner = c01.base_type_before_last(f, {'l': pl['l'], 'p': pl['p'][:pl['p'].index(ps[-1]) + 1]})
+                if owner not in ('yarel::vm::Vm',):
+                    continue
+                (ups if rr['op'].startswith('Add') else downs).setdefault(ps[-1]['n'], set()).add(p_)
+    paired = sorted(fld for fld in ups if fld in downs and ups[fld] != downs[fld])
+    r.ok('census of Vm counters raised and lowered by different functions: %s' % (paired or 'none'))
+    if not paired:
+        return
+    import c08
+    u = w.require_fn('yarel::vm::Vm::unwind_stack', prop)
+    _, wr = c08.field_accesses(w, u, 1)
+    for fld in paired:
+        r.check(('yarel::vm::Vm', fld) in wr, 'Vm.%s is restored by unwind_stack' % fld,
+                'Vm.%s is raised in %s and lowered in %s, but delivering an exception (unwind_stack) never touches it: every error that leaves the region in between '
+                'leaves the counter one too high for good' % (fld, sorted(x.rsplit('::', 1)[-1] for x in ups[fld]), sorted(x.rsplit('::', 1)[-1] for x in downs[fld])), u.loc())
